@@ -1,3 +1,4 @@
 //! Shared helpers for the verification harness binaries.
 pub mod rng;
 pub mod proto;
+pub mod swayrun;
